@@ -214,7 +214,30 @@ func runVdrProperty(c *Ctx, prop string) {
 				sp.CrashAt = append(sp.CrashAt, 30+c.Rng.Intn(40))
 			}
 			sp.CrashSurvive = 0.3
+			if c.Rng.Intn(2) == 0 && strings.Contains(src, "pipeline SUB") {
+				sp.RelocateSub = true
+			}
 		}
+		specs = append(specs, sp)
+	}
+	// a sub-pipeline directory is relocated to another volume while mrp is down
+	nReloc := 10
+	if c.Thorough {
+		nReloc = 120
+	}
+	for i := 0; i < nReloc; i++ {
+		mode := []string{"post", "rolling", "strict", "post"}[c.Rng.Intn(4)]
+		var src string
+		for k := 0; k < 40; k++ {
+			src, _ = GenVdrProgram(c.Rng, mode)
+			if strings.Contains(src, "pipeline SUB") {
+				break
+			}
+		}
+		sp := mk(fmt.Sprint("reloc", i), src, mode, c.Seed*104729+int64(i))
+		sp.RelocateSub = true
+		sp.CrashAt = []int{6 + c.Rng.Intn(20)}
+		sp.CrashSurvive = 0.3
 		specs = append(specs, sp)
 	}
 	for i := 0; i < nOrch; i++ {
